@@ -2,9 +2,31 @@ import VyxalModel.Model.Show
 import VyxalModel.Model.Encoding
 import VyxalModel.Model.Number
 import VyxalModel.Model.Strings
+import VyxalModel.Model.Transpile
+import VyxalModel.Model.PyDump
+import VyxalModel.Gen.Elements
+import VyxalModel.Gen.Modifiers
 import VyxalModel.Gen.Codepage
 /-! Line protocol: `cmd<TAB>argument`; one answer line per request. -/
 open Vy
+
+def genEnv (dict : Bool) : TEnv :=
+  { elements := Gen.elements, modifiers := Gen.modifiers, codepage := Gen.codepage, numCompress := Gen.numCompress,
+    strCompress := Gen.strCompress, base27 := Gen.base27, compression := Gen.compression, dictCompress := dict,
+    small := [], contents := [] }
+
+def showTErr : TErr → String
+  | .badTemplate k => "ERR badTemplate " ++ strS k
+  | .stringSyntax => "ERR stringSyntax"
+  | .unmodelled => "ERR unmodelled"
+
+/-- `transpile(src, dict_compress)` : tokenise, parse, transpile; canonical AST dump -/
+def transpileCmd (dict : Bool) (src : List Nat) : String :=
+  match parseTop (tokenise src) with
+  | .error e => s!"ERR parse {repr e}"
+  | .ok tree => match transpileAst (genEnv dict) tree with
+    | .ok py => PyAst.dumpSL py
+    | .error e => showTErr e
 
 def answer (cmd arg : String) : String :=
   match cmd with
@@ -28,6 +50,12 @@ def answer (cmd arg : String) : String :=
   | "quotify" => showOptCps (some (quotify (parseCps arg)))
   | "escstr" => showOptCps (some (escapeString (parseCps arg)))
   | "pybody" => showOptCps (pyStringBody (parseCps arg))
+  | "transpile" => transpileCmd false (parseCps arg)
+  | "transpileD" => transpileCmd true (parseCps arg)
+  | "pydecode" => (match pyDecode (parseCps arg) with
+      | .ok r => showOptCps (some r)
+      | .error .syntax => "ERR syntax"
+      | .error .unmodelled => "ERR unmodelled")
   | _ => "BADCMD"
 
 partial def loop (h : IO.FS.Stream) (out : IO.FS.Stream) : IO Unit := do
